@@ -265,7 +265,8 @@ def check_bulk(chk, it, tabs, configs):
             chk.expect(ok, 'R05.4', inst + ':roles', 'memory.fill passes %r; specification order (dest, value, n) = %r' % (roles, ops), site)
         elif name == 'memory.init':
             # LOAD_DATA(m, o, i, s) -> load_data(&((m).data[o]), i, s)
-            ok = call.x == 'load_data' and len(args) == 3
+            # ... or directly a byte copy: (void)memcpy(&((m).data[o]), i, s)
+            ok = call.x in ('load_data', 'memcpy', '__builtin_memcpy', 'memmove') and len(args) == 3
             if ok:
                 d = args[0]
                 while d.k == 'cast':
@@ -301,6 +302,8 @@ def check_bulk(chk, it, tabs, configs):
         return runtime.summarize(htu, fn, mk)
     for fn, libfn, what in (('wasmMemoryCopy', 'memmove', 'overlap-safe copy'), ('wasmMemoryFill', 'memset', 'fill'),
                             ('load_data', 'memcpy', 'copy')):
+        if fn == 'load_data' and fn not in htu.functions:
+            continue        # LOAD_DATA copies directly (checked on the template above)
         paths = run_fn(fn)
         chk.fn(fn)
         site = 'runtime/' + fn
